@@ -23,11 +23,13 @@ Recorded ==
 
 Unexplained ==
     /\ bad' = bad \cup {"Unexplained"}
-    /\ UNCHANGED <<pres, pavail, curposs, late, ck, cst, ca, cres, aux, canc, fired>>
+    /\ UNCHANGED <<pres, pavail, curposs, late, ck, cst, ca, cres, aux, canc, fired, fine>>
 
 Apply(e) ==
     CASE e.ev = "reset"  -> PReset
       [] e.ev = "init"   -> PScen(e.proms, e.cur)
+      \* granularity of the execution (PromiseP header); a run without it keeps fine = TRUE (weaker reading)
+      [] e.ev = "cfg"    -> PCfg(e.fine)
       [] e.ev = "call"   ->
             CASE e.op = "set"   -> PCallSet(e.id, e.q, e.v, e.e, e.actor)
               [] e.op = "cset"  -> PCallCset(e.id, e.q, e.v, e.e, e.actor)
